@@ -15,6 +15,8 @@ Streams
           saved one (also the empty set); crash injection on the transition to the empty set.
   cachehist histories of update_map / delete_map / restart over two pairing ids through CharacteristicCacheFile and
           through AbstractPairing.restore_accessories_state; after every restart each id holds what was written last.
+  layout  save_data crash points when the pairing path is a symlink (same / other directory, dangling) or lies in a
+          symlinked directory; the same path must load the old or the new data at every crash point.
   blewt   the BLE pairing methods that decide whether/what to write through (_async_set_broadcast_encryption_key,
           _update_state_num, _async_description_update, restore_accessories_state) on a live BlePairing; after every
           step a restart must see the config number, state number and broadcast key just established.
@@ -96,14 +98,26 @@ def load_cache(path):
 
 # ---------------------------------------------------------------- sandbox helpers
 def reset_dir(root, files):
+    """files: relative path -> bytes | ("link", target relative to the sandbox root) | ("dirlink", target dir)."""
     for fn in os.listdir(root):
         p = os.path.join(root, fn)
-        if os.path.isdir(p):
+        if os.path.isdir(p) and not os.path.islink(p):
             shutil.rmtree(p)
         else:
             os.unlink(p)
     for rel, content in files.items():
-        with open(os.path.join(root, rel), "wb") as f:
+        p = os.path.join(root, rel)
+        if isinstance(content, tuple):
+            if content[0] == "dirlink":
+                os.makedirs(os.path.join(root, content[1]), exist_ok=True)
+            os.makedirs(os.path.dirname(p), exist_ok=True)
+            os.symlink(os.path.join(root, content[1]), p)
+    for rel, content in files.items():
+        if isinstance(content, tuple):
+            continue
+        p = os.path.join(root, rel)
+        os.makedirs(os.path.dirname(p), exist_ok=True)
+        with open(p, "wb") as f:
             f.write(content)
 
 
@@ -114,10 +128,17 @@ def show_content(b: bytes) -> str:
 
 
 def listing(root, names):
+    """Regular files of the sandbox (recursively; symlinks are not listed, directories reached through a link are not
+    entered): name -> content."""
     out = {}
-    for fn in sorted(os.listdir(root)):
-        with open(os.path.join(root, fn), "rb") as f:
-            out[names.get(fn, fn)] = show_content(f.read())
+    for d, dirs, fns in os.walk(root):
+        for fn in sorted(fns):
+            p = os.path.join(d, fn)
+            if os.path.islink(p):
+                continue
+            rel = os.path.relpath(p, root)
+            with open(p, "rb") as f:
+                out[names.get(rel, rel)] = show_content(f.read())
     return out
 
 
@@ -159,7 +180,8 @@ def shape_of(ops, target):
 class CrashCase:
     """One save procedure run to completion once and then cut short before every primitive."""
 
-    def __init__(self, root, drv, target_rel, init_files, make_action, loader, classify_loaded, max_pieces):
+    def __init__(self, root, drv, target_rel, init_files, make_action, loader, classify_loaded, max_pieces, load_rel=None):
+        self.load_rel = load_rel or target_rel          # the path the application uses (may go through symlinks)
         self.root, self.drv, self.target_rel = root, drv, target_rel
         self.init_files, self.make_action, self.loader = init_files, make_action, loader
         self.classify_loaded, self.max_pieces = classify_loaded, max_pieces
@@ -173,14 +195,24 @@ class CrashCase:
         sim0, completed, exc = run_with_crash(root, self.make_action(), None, "a", self.max_pieces, names0)
         res = dict(ops=sim0.ops, names=dict(sim0.names), completed=completed, exc=exc,
                    unsupported=sim0.unsupported, points=[], shape=shape_of(sim0.ops, 0))
-        tpath = os.path.join(root, self.target_rel)
+        tpath = os.path.join(root, self.load_rel)
         new_bytes = open(tpath, "rb").read() if os.path.exists(tpath) else b""
         res["new_bytes"] = new_bytes
-        old_bytes = self.init_files.get(self.target_rel)
+        links = {rel: c[1] for rel, c in self.init_files.items() if isinstance(c, tuple) and c[0] == "link"}
+        old_bytes = self.init_files.get(links.get(self.target_rel, self.target_rel))
+        if isinstance(old_bytes, tuple):
+            old_bytes = None
         res["old_bytes"] = old_bytes
+        res["dangling"] = self.target_rel in links and old_bytes is None
         final_names = dict(sim0.names)
         # model replay of every crash point
-        inits = ";".join(f"{final_names[rel]}:{hx(c)}" for rel, c in self.init_files.items()) or "."
+        for rel in list(self.init_files) + list(links.values()):
+            final_names.setdefault(rel, len(final_names))
+        # a symlink to an existing file is a second name of the same inode in the model (same behaviour for
+        # open-through, rename-over and unlink); regular files first so that the alias can refer to them
+        inits = ";".join([f"{final_names[rel]}:{hx(c)}" for rel, c in self.init_files.items() if not isinstance(c, tuple)]
+                         + [f"{final_names[rel]}={final_names[t]}" for rel, t in links.items()
+                            if not isinstance(self.init_files.get(t, ("x",)), tuple)]) or "."
         req = "sim 0 %s %s %d %s %s" % ("!" if old_bytes is None else hx(old_bytes), hx(new_bytes),
                                         len(final_names), inits, " ".join(op_tok(o) for o in sim0.ops))
         reqs = [req]
@@ -205,10 +237,11 @@ class CrashCase:
             for view in views:
                 reset_dir(root, self.init_files)
                 sim, comp, exc2 = run_with_crash(root, self.make_action(), n, view, self.max_pieces, names0)
-                real_list = listing(root, sim.names if len(sim.names) >= len(final_names) else final_names)
+                real_list = listing(root, {**final_names, **sim.names})
+                live_links = sorted(final_names[rel] for rel in links if os.path.islink(os.path.join(root, rel)))
                 loaded = self.loader(tpath)
                 res["points"].append(dict(n=n, view=view, ops_prefix_ok=(sim.ops == sim0.ops[:n]),
-                                          listing=real_list, loaded=loaded, cls=self.classify_loaded(loaded),
+                                          listing=real_list, live_links=live_links, loaded=loaded, cls=self.classify_loaded(loaded),
                                           next_op=(sim0.ops[n][0] if n < len(sim0.ops) else "end"),
                                           exc=type(exc2).__name__ if exc2 else None))
         return res
@@ -347,6 +380,9 @@ def judge_crash_case(site, res, have_old, cov, viols, first_violation, stats, ca
         stats["crash_points"] += 1
         n, view = pt["n"], pt["view"]
         mcls, mlist = res["model"][(n, view)]
+        mlist = {k: v for k, v in mlist.items() if k not in pt.get("live_links", [])}      # symlinks are not listed
+        if res.get("dangling"):
+            mcls = "unmodelled"                                                          # no alias for a dangling link
         real_list = {k: v for k, v in pt["listing"].items()}
         key_res = f"{res['shape']}/{view}/{pt['next_op']}/{pt['cls']}"
         stats["results"][key_res] = stats["results"].get(key_res, 0) + 1
@@ -1131,6 +1167,52 @@ def stream_pairs(ctx, drv, cov, viols, root, r):
             viols.append(violation("bkey:hex-roundtrip", "broadcast key hex round trip differs", deserialize_broadcast_key(serialize_broadcast_key(k)) != k,
                                    key=k.hex(), model=a))
     cov.extra["pairs_stream"] = stats
+
+
+# ---------------------------------------------------------------- stream: file-system layouts of the pairing path
+def stream_layout(ctx, drv, cov, viols, root, r):
+    """save_data crash points where the pairing path is not a plain file in a plain directory: a symlink to a file in
+    the same / another directory, a dangling symlink, a file reached through a symlinked directory (and the plain file
+    as the control).  Judged only on 'the saved pairings survive an interrupted save': a fresh Controller loading the
+    SAME path sees the old or the new data at every crash point, and the new data once the save completed (whether the
+    link itself is replaced by a regular file is not the property's business)."""
+    tier = ctx["tier"]
+    stats = dict(saves=0, crash_points=0, shapes={}, results={}, layouts={})
+    first = {}
+    layouts = ["plain", "symlink-same-dir", "symlink-other-dir", "dir-symlink", "dangling-symlink"]
+    for li, layout in enumerate(layouts * (1 if tier == "quick" else 6)):
+        old = gen_pairing_set(r, r.choice([1, 2]))
+        new = gen_pairing_set(r, r.choice([1, 2]))
+        ob = dumps_file(old)
+        if layout == "plain":
+            init, target_rel, load_rel = {"pairing.json": ob}, "pairing.json", "pairing.json"
+        elif layout == "symlink-same-dir":
+            init, target_rel, load_rel = {"real.json": ob, "pairing.json": ("link", "real.json")}, "pairing.json", "pairing.json"
+        elif layout == "symlink-other-dir":
+            init = {"store/real.json": ob, "pairing.json": ("link", "store/real.json")}
+            target_rel, load_rel = "pairing.json", "pairing.json"
+        elif layout == "dir-symlink":
+            init = {"realdir/pairing.json": ob, "cfg": ("dirlink", "realdir")}
+            target_rel, load_rel = "realdir/pairing.json", "cfg/pairing.json"
+        else:
+            init, target_rel, load_rel = {"pairing.json": ("link", "missing.json")}, "pairing.json", "pairing.json"
+            old = None
+        ctl = controller_with(new)
+        path = os.path.join(root, load_rel)
+        case = CrashCase(root, drv, target_rel, init, lambda: (lambda: ctl.save_data(path)), load_pairings,
+                         classify_pairings(old, new), 4 if tier == "quick" else 10, load_rel=load_rel)
+        res = case.run()
+        res["old_equals_new"] = (old == new)
+        res["shape"] = res["shape"] + "@" + layout
+        stats["saves"] += 1
+        stats["layouts"][layout] = stats["layouts"].get(layout, 0) + 1
+        stats["shapes"][res["shape"]] = stats["shapes"].get(res["shape"], 0) + 1
+        judge_crash_case("save_data", res, old is not None, cov, viols, first, stats,
+                         dict(layout=layout, initial_files={k: (v if isinstance(v, tuple) else f"{len(v)} bytes") for k, v in init.items()},
+                              path=load_rel, old=old, new=new),
+                         MODEL_TO_LOAD, {"old", "new"}, {"empty", "new"})
+    stats.pop("results", None)
+    cov.extra["layout_stream"] = stats
 
 
 # ---------------------------------------------------------------- stream: save sequences (add / remove / save / restart)
@@ -2596,6 +2678,7 @@ async def run_async(ctx):
         for name, fn in (("save", lambda: stream_save(ctx, drv, cov, viols, root, rng(seed, "c20save"))),
                          ("cache", lambda: stream_cache(ctx, drv, cov, viols, root, rng(seed, "c20cache"))),
                          ("cache_history", lambda: stream_cachehist(ctx, drv, cov, viols, root, rng(seed, "c20cachehist"))),
+                         ("layout", lambda: stream_layout(ctx, drv, cov, viols, root, rng(seed, "c20layout"))),
                          ("json_codec", lambda: stream_jcodec(ctx, drv, cov, viols, root, rng(seed, "c20jcodec"))),
                          ("pairs", lambda: stream_pairs(ctx, drv, cov, viols, root, rng(seed, "c20pairs"))),
                          ("entry", lambda: stream_entry(ctx, drv, cov, viols, root, rng(seed, "c20entry"))),
